@@ -318,6 +318,48 @@ func (db *DB) Apply(o Op, obs *Obs) ([]Outcome, error) {
 		n := db.Clone()
 		delete(n.Colls[o.Coll].Indexes, o.Field)
 		return []Outcome{{State: n}}, nil
+	case "import":
+		// o.Docs: the documents the file holds after JSON typing; o.Missing: unreadable / ill-formed file
+		if o.Missing {
+			if coll != nil {
+				return same(EAny, ECollExist), nil
+			}
+			return same(EAny), nil
+		}
+		if coll != nil {
+			return same(ECollExist), nil
+		}
+		n := db.Clone()
+		n.Colls[o.Coll] = &Coll{Docs: map[string]Doc{}, Indexes: map[string]bool{}}
+		outs, err := n.applyInsert(Op{K: "insert", Coll: o.Coll, Docs: o.Docs}, obs, false)
+		if err != nil {
+			return nil, err
+		}
+		for i := range outs {
+			if outs[i].Err != OK {
+				outs[i].State = db // a failed import leaves nothing behind
+			}
+		}
+		return outs, nil
+	case "createByQuery":
+		src := db.Colls[o.Q.Coll]
+		classes := []string{}
+		if coll != nil {
+			classes = append(classes, ECollExist)
+		}
+		if src == nil {
+			classes = append(classes, ECollNotExist)
+		}
+		if len(classes) > 0 {
+			return same(classes...), nil
+		}
+		n := db.Clone()
+		nc := &Coll{Docs: map[string]Doc{}, Indexes: map[string]bool{}}
+		for _, id := range o.Q.Select(src.Docs) {
+			nc.Docs[id] = Clone(src.Docs[id]).(Doc)
+		}
+		n.Colls[o.Coll] = nc
+		return []Outcome{{State: n}}, nil
 	case "insert":
 		return db.applyInsert(o, obs, false)
 	case "save":
